@@ -313,6 +313,7 @@ func runCheck(prop, tier, repo string, verbose, safety bool, timeout int) int {
 			obls = append(obls, o)
 		}
 	}
+	explicitTimeout := timeout != 0
 	if timeout == 0 {
 		timeout = 20
 		if tier == "thorough" {
@@ -336,6 +337,27 @@ func runCheck(prop, tier, repo string, verbose, safety bool, timeout int) int {
 	}
 	genT := time.Since(start).Seconds() - loadT
 	v.solveAll(obls, work, timeout, 16)
+	// A few obligations left undecided by time-outs may be victims of machine load (other checks running): they get a
+	// second, calmer attempt (few at a time, three times the limit) before anything is reported.
+	if !explicitTimeout {
+		var again []*Obligation
+		for _, o := range obls {
+			if !o.Canary && !o.Known && !o.Preset && (o.Result == "timeout" || o.Result == "unknown") {
+				again = append(again, o)
+			}
+		}
+		if len(again) > 0 && len(again) <= 6 {
+			for _, o := range again {
+				o.Result, o.Solver, o.Output = "", "", ""
+			}
+			v.solveAll(again, filepath.Join(work, "retry"), timeout*3, 3)
+			for _, o := range again {
+				if o.Result == "unsat" {
+					o.Solver += " (second attempt)"
+				}
+			}
+		}
+	}
 	solveT := time.Since(start).Seconds() - loadT - genT
 
 	// group by name
@@ -499,6 +521,10 @@ func runCheck(prop, tier, repo string, verbose, safety bool, timeout int) int {
 	}
 	fmt.Printf("%s: %d obligations, %d discharged, %d violations, %d known findings, %d canaries, %.1fs (load %.1f, vcgen %.1f, solve %.1f)\n",
 		prop, nObl, nDis, violations, len(knownLines), nCanary, wall, loadT, genT, solveT)
+	// the SMT files of a clean run are not kept (disk space); after a violation they stay for inspection
+	if violations == 0 && internal == 0 && !verbose && os.Getenv("GOVC_KEEP") == "" {
+		os.RemoveAll(work)
+	}
 	if internal > 0 {
 		return 3
 	}
